@@ -133,3 +133,18 @@ package load
 //@ extern func (p Promise) Fail
 //@   ensures resolved[p] == old(resolved[p]) + 1
 //@   modifies resolved[p]
+
+// NewAdaptiveShedder: the capacity estimate multiplies (max passes per bucket) x (min average latency in ms) by
+// windowScale, which must therefore be "buckets per millisecond": windowScale * bucketDuration[ns] * 1000 == 1e9, for every
+// configured window and bucket count (assumed sane: at least one bucket, buckets no shorter than 1 ns).
+//@ func NewAdaptiveShedder
+//@   property C02
+//@   float real
+//@   call opt#0: modifies options.window, options.buckets, options.cpuThreshold
+//@   call opt#0: establishes options.buckets >= 1 && options.window >= time.Duration(options.buckets)
+//@   loop 0: modifies options.window, options.buckets, options.cpuThreshold
+//@   loop 0: invariant options.buckets >= 1 && options.window >= time.Duration(options.buckets)
+//@   ghost at entry: nop = false
+//@   ghost at returned#0: nop = true
+//@   ensures implies(!nop, result.(*adaptiveShedder).windowScale * real(options.window / time.Duration(options.buckets)) * 1000.0 == 1000000000.0)
+//@   allocates
